@@ -42,7 +42,7 @@ PROPS = {
     "C46": {
         "level": "exploration",
         "technique": "runtime monitoring: every body records its stack depth (address of a local relative to the first monitored body the thread ever ran) and the number of monitored bodies nested below it on the same thread; each shape runs at sizes n and 8n; second oracle: the same shapes on 512 KiB thread stacks under ASan",
-        "level_text": "Shapes: then-chains (continuations scheduled on a pool / TaskSet / ConcurrentTaskSet, deferred or async policy, fired from a worker or from an external thread), recursive ConcurrentTaskSet scheduling (schedule, scheduleBulk(1), binary fan-out; kHeavy/kLightweight), serial pipelines whose stage queues fill up, graph chains / combs / ladders on the ConcurrentTaskSetExecutor; pools 0..4, idle or with workers held and the pool over its load factor. Refuted if the maximum stack depth at 8n exceeds the one at n by more than 64 KiB, or any body runs deeper than 512 KiB of stack or below more than 80 nested monitored bodies (kMaxInlineDepth is 32); in that case the run is stopped before the stack overflows.",
+        "level_text": "Shapes: then-chains (continuations scheduled on a pool / TaskSet / ConcurrentTaskSet, deferred or async policy, fired from a worker or from an external thread), recursive ConcurrentTaskSet scheduling (schedule, scheduleBulk(1), binary fan-out; kHeavy/kLightweight), serial pipelines whose stage queues fill up, graph chains / combs / ladders on the ConcurrentTaskSetExecutor; pools 0..4, idle or with workers held and the pool over its load factor. Refuted if the maximum stack depth at 8n exceeds the one at n by more than 64 KiB (128 KiB under TSan, 256 KiB under ASan, whose frames are larger), or any body runs deeper than 512 KiB of stack or below more than 80 nested monitored bodies (kMaxInlineDepth is 32); in that case the run is stopped before the stack overflows.",
         "level_note": "A constant bound cannot be observed directly; growth between n and 8n plus absolute caps far above the implementation's intended limit (32 nested inline runs) stand in for it.",
         "design_ref": "DESIGN.md §4 C46",
         "rule": "case = (shape, variant, pool, load multiplier, load, trigger thread, n); non-trivial = the 8n run executed at least 8n monitored bodies; distinct by full spec",
